@@ -77,6 +77,7 @@ type Result struct {
 	Diverged string         `json:"diverged,omitempty"`
 	Infra    string         `json:"infra,omitempty"`
 	Trace    []string       `json:"trace,omitempty"`
+	Notes    []string       `json:"notes,omitempty"`
 	Reps     int            `json:"reps"`
 }
 
@@ -138,6 +139,7 @@ func childMain(specPath, resPath string) {
 			for k, v := range w.counters {
 				res.Counters[k] += v
 			}
+			res.Notes = append(res.Notes, w.notes...)
 		}
 		res.Reps = rep + 1
 		if stop {
@@ -372,6 +374,9 @@ func record(c *Case, res *Result) {
 		ev.R().Count(k, v)
 	}
 	ev.R().Count("scenario_executions", res.Reps)
+	for _, n := range res.Notes {
+		ev.R().Note(n)
+	}
 	if res.Diverged != "" {
 		ev.R().Count("cases_diverged", 1)
 		ev.R().Note("diverged: " + res.Diverged)
@@ -385,7 +390,11 @@ func TestProp(t *testing.T) {
 		record(&c, res)
 		if v := res.Verdict; v != nil {
 			path := ev.R().Fail(v.Sig, v.Msg, Doc{Property: "C17", Case: c, Signature: v.Sig, Message: v.Msg, Trace: res.Trace})
-			t.Fatalf("C17 violated: %s: %s (step %d, run %d; replay %s)", v.Sig, v.Msg, v.Step, v.Rep, path)
+			// The message given to rapid is constant on purpose: rapid gives up shrinking as
+			// soon as two runs of one case end with different messages, and the identity of
+			// the leaked transaction (or the waiting time) may differ from run to run.
+			t.Logf("C17 violated: %s: %s (step %d, run %d; replay %s)", v.Sig, v.Msg, v.Step, v.Rep, path)
+			t.Fatalf("C17 violated")
 		}
 	})
 }
